@@ -289,19 +289,36 @@ func (r *run) odsPath(c *content) string {
 	return filepath.Join(r.dir, "blocks", share.DataHash(c.roots.Hash()).String()+".ods")
 }
 
-// make the next write of this block's files fail: a non-empty directory where the ODS file goes
-func (r *run) obstruct(c *content, on bool) {
+// obstruct makes the next write of this block fail at the given point of store.put (kind "" removes every
+// obstruction):
+//
+//	fail_create   the blocks directory is away: the files cannot be created (ENOENT)
+//	fail_recover  a non-empty directory sits where the ODS file goes: "exists", not valid, cannot be replaced
+//	fail_link     the heights directory is away: the files are written, the height cannot be linked
+func (r *run) obstruct(c *content, kind string) {
+	blocks, blocksOff := filepath.Join(r.dir, "blocks"), filepath.Join(r.dir, "blocks.off")
+	heights, heightsOff := filepath.Join(blocks, "heights"), filepath.Join(blocks, "heights.off")
+	// undo whatever is in place
+	if _, err := os.Lstat(blocksOff); err == nil {
+		_ = os.Rename(blocksOff, blocks)
+	}
+	if _, err := os.Lstat(heightsOff); err == nil {
+		_ = os.Rename(heightsOff, heights)
+	}
 	p := r.odsPath(c)
-	fi, err := os.Lstat(p)
-	if on {
-		if err == nil && !fi.IsDir() {
+	if fi, err := os.Lstat(p); err == nil && fi.IsDir() {
+		_ = os.RemoveAll(p)
+	}
+	switch kind {
+	case "fail_create":
+		_ = os.Rename(blocks, blocksOff)
+	case "fail_link":
+		_ = os.Rename(heights, heightsOff)
+	case "fail_recover":
+		if fi, err := os.Lstat(p); err == nil && !fi.IsDir() {
 			return // the real file is there (block stored): nothing to obstruct
 		}
 		_ = os.MkdirAll(filepath.Join(p, "x"), 0o755)
-		return
-	}
-	if err == nil && fi.IsDir() {
-		_ = os.RemoveAll(p)
 	}
 }
 
@@ -466,6 +483,14 @@ func (r *run) teardown() {
 	}
 }
 
+func storeFailKind(st string) string {
+	switch st {
+	case "fail_create", "fail_recover", "fail_link":
+		return st
+	}
+	return ""
+}
+
 func classify(err error) string {
 	var byz *byzantine.ErrByzantine
 	switch {
@@ -505,7 +530,7 @@ func (r *run) exec() {
 		switch s.N {
 		case "Announce":
 			src := r.srcs[(s.S-1)%len(r.srcs)]
-			r.obstruct(c, s.St == "fail")
+			r.obstruct(c, storeFailKind(s.St))
 			r.w.mu.Lock()
 			r.w.fetch, r.w.sync, r.w.calls = s.Fetch, s.Sync, nil
 			r.w.block = signedBlock(int64(s.H), r.btime[s.H-1], c)
@@ -525,7 +550,7 @@ func (r *run) exec() {
 				}
 			}
 		case "Available":
-			r.obstruct(c, s.St == "fail")
+			r.obstruct(c, storeFailKind(s.St))
 			r.get.mu.Lock()
 			r.get.out, r.get.eds, r.get.calls = s.Get, c.eds, 0
 			r.get.mu.Unlock()
@@ -541,7 +566,7 @@ func (r *run) exec() {
 			r.driftf("unknown model step %q", s.N)
 			continue
 		}
-		r.obstruct(c, false)
+		r.obstruct(c, "")
 
 		// ---- observe
 		after := r.observeHeight(s.H)
@@ -636,7 +661,7 @@ func (r *run) exec() {
 			}
 		}
 		inside := r.inWin[s.H-1]
-		injectedStoreFail := s.St == "fail" && !c.empty()
+		injectedStoreFail := storeFailKind(s.St) != "" && !c.empty()
 		if s.N == "Announce" {
 			// a failed ingest, as far as the property is concerned: the block could not be obtained or could not
 			// be written. (Whether a failing sync-state query must abort the ingest is the code's choice: that
@@ -697,6 +722,9 @@ func (r *run) exec() {
 			if r.mode == "archival" && !r.inWin[h-1] && o.Kind == "odsq4" {
 				r.rep.Violate(sigPolicyArch, fmt.Sprintf("archival node: height %d is outside the window and was stored with its parity quadrant", h), r.replay(nil))
 			}
+		}
+		if injectedStoreFail && s.Res == "store_error" {
+			r.rep.Count("store_"+s.St, 1)
 		}
 		if s.N == "Announce" {
 			r.releaseBarrier()
